@@ -1,8 +1,15 @@
 package main
 
 import (
+	"bytes"
 	"encoding/base64"
+	"encoding/json"
+	"fmt"
+	"os"
+	"path/filepath"
+	"sync"
 
+	"github.com/edutko/decipher/internal/file"
 	"github.com/edutko/decipher/internal/util"
 )
 
@@ -175,5 +182,678 @@ func genC14(c *Ctx) {
 		crlf := c.R.Bool()
 		text := wrapText([]byte(goEncs[e].EncodeToString(data)), w, crlf)
 		c.Emit("rt", SL{I(e), I(w), Bool(crlf), SB(data)}, obsDecodeAny(text))
+	}
+	genC14Callers(c)
+}
+
+// ---------------------------------------------------------------------------------------
+// The implementation used the way its callers use it: the text sits in a buffer that the
+// caller keeps (and looks at again, refills, shares the backing array of, ...).  The property
+// is about the function from TEXT to result, so every observation below must be what a single
+// call on a fresh copy of the text gives, and the buffer must come back untouched.
+//
+//	twice (fn mode scribble pre post entry)              -> (r1 buf rfresh buf r2 buf r1late)
+//	reuse (fn mode scribble backing0 ((off entry)...))   -> ((r buf rfresh rlate)...)
+//	conc  (fn shape ((entryA entryB)...))                -> ((rA rB stable bufB)...)
+//
+// entry = (text lib aux); fn: 0 WhichBase64, 1 DecodeAnyBase64, 2 IsBase64ASN1, 3 IsJWT,
+// 4 IsBase64ASN1 then Base64ASN1File on the same buffer (what file.Inspect does).
+// mode: 0 window b[lo:hi] of pre+text+post (spare capacity behind the text), 1 b[lo:hi:hi],
+// 2 nil slice, 3 empty non-nil slice.  buf = the whole backing array after the call.
+// ---------------------------------------------------------------------------------------
+
+func encIndex(e *base64.Encoding) int {
+	if e == nil {
+		return 4
+	}
+	for i, g := range goEncs {
+		if e == g {
+			return i
+		}
+	}
+	return 5
+}
+
+func c14cp(b []byte) []byte { return append([]byte{}, b...) }
+
+// callFn calls function fn of the implementation on w; res is the slice DecodeAnyBase64 returned.
+func callFn(fn int, w []byte) (obs Sx, res []byte) {
+	obs = guard(func() Sx {
+		switch fn {
+		case 0:
+			return ObsOk(I(encIndex(util.WhichBase64(w))))
+		case 1:
+			b, err := util.DecodeAnyBase64(w)
+			if err != nil {
+				return ObsErr()
+			}
+			res = b
+			return ObsOk(SB(c14cp(b)))
+		case 2:
+			return ObsOk(Bool(file.IsBase64ASN1("", w, int64(len(w)))))
+		case 3:
+			return ObsOk(Bool(file.IsJWT("", w, int64(len(w)))))
+		default:
+			s := file.IsBase64ASN1("", w, int64(len(w)))
+			info, err := file.Base64ASN1File(file.Info{}, w)
+			var p Sx = ObsErr()
+			if err == nil {
+				p = ObsOk(InfoSx(info))
+			}
+			return ObsOk(SL{Bool(s), p})
+		}
+	})
+	return
+}
+
+func scribbleOver(res []byte) {
+	res = res[:cap(res)]
+	for i := range res {
+		res[i] ^= 0xff
+	}
+}
+
+func libFirst(t []byte) ([]byte, bool) {
+	for _, e := range goEncs {
+		if b, err := e.DecodeString(string(t)); err == nil {
+			return b, true
+		}
+	}
+	return nil, false
+}
+
+func jsonObject(b []byte) bool {
+	var m map[string]any
+	return json.Unmarshal(b, &m) == nil && m != nil
+}
+
+// c14Entry records, for one text, the standard decoders' answers and the answers of the code
+// behind the decoder (computed on the STANDARD decoder's bytes, from a private copy of the text).
+func c14Entry(fn int, text []byte) (Sx, bool) {
+	t := c14cp(text)
+	lib := libDecodes(t)
+	var aux Sx = SL{}
+	switch fn {
+	case 2:
+		dec, ok := libFirst(t)
+		aux = Bool(ok && file.IsASN1("", dec, int64(len(dec))))
+	case 3:
+		ps := SL{}
+		for _, p := range bytes.Split(t, []byte(".")) {
+			dec, ok := libFirst(p)
+			ps = append(ps, SL{SB(c14cp(p)), libDecodes(p), Bool(ok && jsonObject(dec))})
+		}
+		aux = ps
+	case 4:
+		dec, ok := libFirst(t)
+		var ref Sx = ObsErr()
+		if ok {
+			ref = guard(func() Sx {
+				info, err := file.ASN1File(file.Info{}, dec)
+				if err != nil {
+					return ObsErr()
+				}
+				return ObsOk(InfoSx(info))
+			})
+			if ref.String() == ObsPanic().String() {
+				return nil, false // ASN1File's own business (C05), not a base64 case
+			}
+		}
+		aux = SL{Bool(ok && file.IsASN1("", dec, int64(len(dec)))), ref}
+	}
+	return SL{SB(t), lib, aux}, true
+}
+
+// mostly nothing in between; one in four with fresh-copy calls interleaved
+func c14ReuseMode(c *Ctx) int {
+	m := c.R.Intn(2)
+	if c.R.Intn(4) == 0 {
+		m |= 2
+	}
+	return m
+}
+
+func c14Window(mode int, backing []byte, lo, hi int) []byte {
+	switch mode {
+	case 1:
+		return backing[lo:hi:hi]
+	case 2:
+		return nil
+	case 3:
+		return []byte{}
+	}
+	return backing[lo:hi]
+}
+
+func c14Twice(c *Ctx, tag string, fn, mode int, scribble bool, pre, text, post []byte) {
+	if mode >= 2 {
+		pre, text, post = nil, nil, nil
+	}
+	e, ok := c14Entry(fn, text)
+	if !ok {
+		return
+	}
+	backing := append(append(c14cp(pre), text...), post...)
+	w := c14Window(mode, backing, len(pre), len(pre)+len(text))
+	// nothing else is decoded between the two looks at the buffer (the caller's own bytes, res,
+	// may be written to); the same text in another buffer comes last
+	r1, res := callFn(fn, w)
+	b1 := c14cp(backing)
+	if scribble {
+		scribbleOver(res)
+	}
+	b2 := c14cp(backing)
+	r2, _ := callFn(fn, w)
+	b3 := c14cp(backing)
+	rf, _ := callFn(fn, c14cp(text))
+	// the bytes the first call returned, read again after the later calls
+	late := r1
+	if res != nil && !scribble {
+		late = ObsOk(SB(c14cp(res)))
+	}
+	c.Emit("twice:"+tag, SL{I(fn), I(mode), Bool(scribble), SB(c14cp(pre)), SB(c14cp(post)), e},
+		SL{r1, SB(b1), rf, SB(b2), r2, SB(b3), late})
+}
+
+type c14Step struct {
+	off  int
+	text []byte
+}
+
+func c14Reuse(c *Ctx, tag string, fn, mode int, scribble bool, backing0 []byte, steps []c14Step) {
+	// mode&1: capacity of the window limited to the text; mode&2: the answer for a fresh copy of
+	// the text is asked for between the steps (otherwise after all of them, so that nothing else
+	// is decoded between two fillings of the buffer)
+	backing := c14cp(backing0)
+	in := SL{}
+	rs, afters, rfs := make([]Sx, len(steps)), make([]Sx, len(steps)), make([]Sx, len(steps))
+	kept := make([][]byte, len(steps)) // the slices the calls returned, read again at the end
+	for _, s := range steps {
+		e, ok := c14Entry(fn, s.text)
+		if !ok || s.off+len(s.text) > len(backing) {
+			return
+		}
+		in = append(in, SL{I(s.off), e})
+	}
+	for i, s := range steps {
+		copy(backing[s.off:], s.text)
+		w := c14Window(mode&1, backing, s.off, s.off+len(s.text))
+		r, res := callFn(fn, w)
+		rs[i], afters[i], kept[i] = r, SB(c14cp(backing)), res
+		if mode&2 != 0 {
+			rfs[i], _ = callFn(fn, c14cp(s.text))
+		}
+		if scribble {
+			scribbleOver(res)
+		}
+	}
+	obs := SL{}
+	for i, s := range steps {
+		if mode&2 == 0 {
+			rfs[i], _ = callFn(fn, c14cp(s.text))
+		}
+		late := rs[i]
+		if kept[i] != nil && !scribble {
+			late = ObsOk(SB(c14cp(kept[i])))
+		}
+		obs = append(obs, SL{rs[i], afters[i], rfs[i], late})
+	}
+	c.Emit("reuse:"+tag, SL{I(fn), I(mode), Bool(scribble), SB(c14cp(backing0)), in}, obs)
+}
+
+// c14Conc: one goroutine per pair of equal-length texts; each refills ITS OWN buffer with the
+// two texts alternately and decodes, all goroutines at once.  shape 0: separately allocated
+// buffers, shape 1: adjacent windows of one array (capacity reaching into the neighbours).
+func c14Conc(c *Ctx, tag string, fn, shape int, pairs [][2][]byte) {
+	const iters = 40
+	in := SL{}
+	bufs := make([][]byte, len(pairs))
+	total := 0
+	for _, p := range pairs {
+		total += len(p[0])
+	}
+	big := make([]byte, total)
+	at := 0
+	for g, p := range pairs {
+		ea, ok1 := c14Entry(fn, p[0])
+		eb, ok2 := c14Entry(fn, p[1])
+		if !ok1 || !ok2 || len(p[0]) != len(p[1]) {
+			return
+		}
+		in = append(in, SL{ea, eb})
+		if shape == 1 {
+			bufs[g] = big[at : at+len(p[0])]
+			at += len(p[0])
+		} else {
+			bufs[g] = make([]byte, len(p[0]), len(p[0])+g)
+		}
+	}
+	out := make([]Sx, len(pairs))
+	start := make(chan struct{})
+	var wg sync.WaitGroup
+	for g := range pairs {
+		wg.Add(1)
+		go func(g int) {
+			defer wg.Done()
+			<-start
+			buf := bufs[g]
+			var first [2]Sx
+			stable := true
+			for it := 0; it < iters; it++ {
+				for k := 0; k < 2; k++ {
+					copy(buf, pairs[g][k])
+					r, _ := callFn(fn, buf)
+					if !bytes.Equal(buf, pairs[g][k]) {
+						stable = false
+					}
+					if first[k] == nil {
+						first[k] = r
+					} else if stable && r.String() != first[k].String() {
+						stable = false
+						first[k] = r // report the deviating answer
+					}
+				}
+			}
+			out[g] = SL{first[0], first[1], Bool(stable), SB(c14cp(buf))}
+		}(g)
+	}
+	close(start)
+	wg.Wait()
+	c.Emit("conc:"+tag, SL{I(fn), I(shape), in}, SL(out))
+}
+
+// ---- texts of a given kind and exact length (L >= 8, L%4 == 0); what the kinds really are
+// is decided by the standard decoders, the names only steer the distribution ----
+const (
+	kAny = iota
+	kStd
+	kURL
+	kStdPad
+	kURLPad
+	kWrapped
+	kStray
+	kMixed
+	kBadPad
+	kRes1
+	c14Kinds
+)
+
+var c14KindName = []string{"any", "std", "url", "stdpad", "urlpad", "wrapped", "stray", "mixed", "badpad", "res1"}
+
+const c14Alnum = "ABCDEFGHIJKLMNOPQRSTUVWXYZabcdefghijklmnopqrstuvwxyz0123456789"
+
+func c14Text(c *Ctx, kind, L int) []byte {
+	fill := func(n int, alpha string) []byte {
+		s := make([]byte, n)
+		for i := range s {
+			s[i] = alpha[c.R.Intn(len(alpha))]
+		}
+		return s
+	}
+	nl := func() byte { return "\n\r"[c.R.Intn(2)] }
+	switch kind {
+	case kAny:
+		return fill(L, c14Alnum)
+	case kStd:
+		s := fill(L, c14Alnum+"+/")
+		s[c.R.Intn(L)] = "+/"[c.R.Intn(2)]
+		return s
+	case kURL:
+		s := fill(L, c14Alnum+"-_")
+		s[c.R.Intn(L)] = "-_"[c.R.Intn(2)]
+		return s
+	case kStdPad, kURLPad:
+		p := 1 + c.R.Intn(2)
+		var s []byte
+		if kind == kStdPad {
+			s = fill(L-p, c14Alnum+"+/")
+		} else {
+			s = fill(L-p, c14Alnum+"-_")
+			s[c.R.Intn(L-p)] = "-_"[c.R.Intn(2)]
+		}
+		return append(s, "=="[:p]...)
+	case kWrapped:
+		m := []int{1, 2, 4}[c.R.Intn(3)]
+		alpha := c14Alnum + []string{"+/", "-_"}[c.R.Intn(2)]
+		data := fill(L-m, alpha)
+		if m == 4 && c.R.Bool() {
+			p := 1 + c.R.Intn(2)
+			copy(data[len(data)-p:], "==")
+		}
+		for i := 0; i < m; i++ {
+			at := c.R.Intn(len(data) + 1)
+			data = append(data[:at], append([]byte{nl()}, data[at:]...)...)
+		}
+		return data
+	case kStray:
+		s := c14Text(c, c.R.Intn(kWrapped+1), L)
+		s[c.R.Intn(L)] = []byte{' ', '*', 0x80, 0, '.', '\t', 0xff, '!'}[c.R.Intn(8)]
+		return s
+	case kMixed:
+		s := fill(L, c14Alnum)
+		i := c.R.Intn(L)
+		j := (i + 1 + c.R.Intn(L-1)) % L
+		s[i], s[j] = "+/"[c.R.Intn(2)], "-_"[c.R.Intn(2)]
+		return s
+	case kBadPad:
+		s := fill(L, c14Alnum)
+		switch c.R.Intn(4) {
+		case 0:
+			s[c.R.Intn(L-1)] = '=' // not at the end
+		case 1:
+			copy(s[L-3-c.R.Intn(2):], "====")
+		case 2:
+			s[0] = '='
+		default:
+			s[L-1], s[L-1-4] = '=', '=' // a padded quantum in the middle and one at the end
+		}
+		return s
+	default: // kRes1: L-3 characters and three line breaks: one character too many
+		data := fill(L-3, c14Alnum)
+		for i := 0; i < 3; i++ {
+			at := c.R.Intn(len(data) + 1)
+			data = append(data[:at], append([]byte{nl()}, data[at:]...)...)
+		}
+		return data
+	}
+}
+
+// base64 (any of the four encodings) of a small DER value, exactly L characters
+func c14DERText(c *Ctx, L int) []byte {
+	n := 3 * L / 4
+	e := c.R.Intn(4)
+	if e >= 2 { // padded encodings reach L with one or two bytes less, too
+		n -= c.R.Intn(3)
+	}
+	der := c.R.Bytes(n)
+	switch c.R.Intn(3) {
+	case 0:
+		der[0], der[1] = 0x04, byte(n-2)
+	case 1:
+		der[0], der[1], der[2], der[3] = 0x30, byte(n-2), 0x04, byte(n-4)
+	default:
+		der[0], der[1], der[2] = 0x02, byte(n-2), der[2]&0x7f|1
+	}
+	return []byte(goEncs[e].EncodeToString(der))
+}
+
+// random line breaks at arbitrary positions (not only every w characters)
+func c14Sprinkle(c *Ctx, s []byte, m int) []byte {
+	s = c14cp(s)
+	for i := 0; i < m; i++ {
+		at := c.R.Intn(len(s) + 1)
+		var br []byte
+		switch c.R.Intn(3) {
+		case 0:
+			br = []byte("\n")
+		case 1:
+			br = []byte("\r\n")
+		default:
+			br = []byte("\r")
+		}
+		s = append(s[:at], append(br, s[at:]...)...)
+	}
+	return s
+}
+
+func c14JWT(c *Ctx, hdr, payload string, e int) []byte {
+	enc := goEncs[e]
+	sig := c.R.Bytes(30)
+	return []byte(enc.EncodeToString([]byte(hdr)) + "." + enc.EncodeToString([]byte(payload)) + "." + enc.EncodeToString(sig))
+}
+
+var c14Hdrs = []string{
+	`{"alg":"HS256","typ":"JWT"}`,
+	`{"alg":"none"}             `,
+	`null                       `,
+	`[1]                        `,
+	`{"alg":"HS256","typ":"JWT" `,
+	`{"alg":"ES256","kid":"~~>"}`,
+}
+
+func c14Junk(c *Ctx, n int) []byte {
+	s := make([]byte, n)
+	for i := range s {
+		s[i] = c.R.Pick([]byte("AQz09+/-_=\n\r *\x00\xff"))
+	}
+	return s
+}
+
+func genC14Callers(c *Ctx) {
+	// ---------------- twice ----------------
+	corpus := []string{"QUJD\nREVG", "QUJD\r\nREVG\r\n", "QUJDREVG\n", "\nQUJDREVG", "QUJD", "", "A=AA", "QQ==\n", "Q\nQ=\n=",
+		"-_-_", "+/+/", "QUJD====", "\n\n", "QUJDRA==", "QUJDR-_+", "!!!!!!!!", "QUJDREVGRw", "QUJDREVGRw\n=="}
+	for _, s := range corpus {
+		for fn := 0; fn <= 1; fn++ {
+			c14Twice(c, "corpus", fn, 0, true, nil, []byte(s), nil)
+			c14Twice(c, "corpus", fn, 0, false, []byte("QUJD"), []byte(s), []byte("REVG\nxx"))
+			c14Twice(c, "corpus", fn, 1, true, []byte("="), []byte(s), []byte("=="))
+		}
+	}
+	// nil, empty, and zero-length windows inside a filled array
+	for fn := 0; fn <= 4; fn++ {
+		c14Twice(c, "empty", fn, 2, true, nil, nil, nil)
+		c14Twice(c, "empty", fn, 3, true, nil, nil, nil)
+		c14Twice(c, "empty", fn, 0, true, []byte("QUJD"), nil, []byte("REVG"))
+		c14Twice(c, "empty", fn, 1, true, []byte("\n"), nil, []byte("\n="))
+		c14Twice(c, "empty", fn, 0, true, nil, nil, []byte("QQ=="))
+	}
+	// every short string over a reduced alphabet, with spare capacity behind the text
+	red := []byte{'A', '-', '=', '\n'}
+	redLen := 5
+	if c.Thorough() {
+		redLen = 7
+	}
+	var rec func(prefix []byte, n int)
+	rec = func(prefix []byte, n int) {
+		if len(prefix) == n {
+			c14Twice(c, "reduced", 1, 0, false, nil, prefix, []byte("AA"))
+			return
+		}
+		for _, r := range red {
+			rec(append(prefix, r), n)
+		}
+	}
+	for n := 1; n <= redLen; n++ {
+		rec(nil, n)
+	}
+	// every kind of text x length x window shape x surroundings
+	rounds := 3
+	if c.Thorough() {
+		rounds = 60
+	}
+	for round := 0; round < rounds; round++ {
+		for kind := 0; kind < c14Kinds; kind++ {
+			for _, L := range []int{8, 12, 16, 20, 64} {
+				for fn := 0; fn <= 1; fn++ {
+					mode := c.R.Intn(2)
+					c14Twice(c, c14KindName[kind], fn, mode, c.R.Bool(), c14Junk(c, c.R.Intn(9)), c14Text(c, kind, L), c14Junk(c, c.R.Intn(9)))
+				}
+			}
+		}
+	}
+	// encodings of random data with line breaks every w characters or sprinkled anywhere
+	nWrap := 400
+	if c.Thorough() {
+		nWrap = 10000
+	}
+	for i := 0; i < nWrap; i++ {
+		n := c.R.Intn(8)
+		if i%3 == 1 {
+			n = c.R.Intn(100)
+		} else if i%3 == 2 {
+			n = c.R.Intn(400)
+		}
+		text := []byte(goEncs[c.R.Intn(4)].EncodeToString(c.R.Bytes(n)))
+		if c.R.Bool() {
+			text = wrapText(text, []int{64, 76, 1, 4, 3, 7}[c.R.Intn(6)], c.R.Bool())
+			if c.R.Bool() {
+				text = append(text, '\n')
+			}
+		} else {
+			text = c14Sprinkle(c, text, 1+c.R.Intn(6))
+		}
+		c14Twice(c, "wrapped-data", i%2, c.R.Intn(2), c.R.Bool(), c14Junk(c, c.R.Intn(5)), text, c14Junk(c, c.R.Intn(5)))
+	}
+	// the sniffers and the parser behind them: base64 of DER, on one line and wrapped
+	var ders [][]byte
+	for _, name := range []string{"prime256v1-b64std", "prime256v1-b64url"} {
+		if b, err := os.ReadFile(filepath.Join(c.Repo, "internal/file/testdata/asn1", name)); err == nil {
+			ders = append(ders, bytes.TrimSpace(b))
+		}
+	}
+	nDER := 60
+	if c.Thorough() {
+		nDER = 1500
+	}
+	for i := 0; i < nDER; i++ {
+		ders = append(ders, c14DERText(c, []int{8, 12, 16, 24, 40, 64, 100, 160}[c.R.Intn(8)]))
+	}
+	for i, d := range ders {
+		for _, fn := range []int{2, 4} {
+			c14Twice(c, "der", fn, 0, true, nil, d, nil)
+			c14Twice(c, "der-wrapped", fn, c.R.Intn(2), true, nil, wrapText(d, 64, i%2 == 0), []byte("\n"))
+			c14Twice(c, "der-wrapped", fn, c.R.Intn(2), false, c14Junk(c, c.R.Intn(4)), append(wrapText(d, []int{76, 4, 1, 10}[c.R.Intn(4)], c.R.Bool()), '\n'), c14Junk(c, c.R.Intn(4)))
+			c14Twice(c, "der-wrapped", fn, c.R.Intn(2), true, nil, c14Sprinkle(c, d, 1+c.R.Intn(4)), nil)
+			bad := c14cp(d)
+			bad[c.R.Intn(len(bad))] = c.R.Pick([]byte("*=. -+_/"))
+			c14Twice(c, "der-damaged", fn, 0, true, nil, bad, nil)
+		}
+	}
+	for round := 0; round < rounds; round++ {
+		for kind := 0; kind < c14Kinds; kind++ {
+			for _, fn := range []int{2, 4} {
+				c14Twice(c, "sniff-"+c14KindName[kind], fn, c.R.Intn(2), true, nil, c14Text(c, kind, []int{8, 12, 16}[c.R.Intn(3)]), c14Junk(c, c.R.Intn(4)))
+			}
+		}
+	}
+	// JWTs
+	nJWT := 40
+	if c.Thorough() {
+		nJWT = 1000
+	}
+	for i := 0; i < nJWT; i++ {
+		tok := c14JWT(c, c14Hdrs[i%len(c14Hdrs)], fmt.Sprintf(`{"sub":"%06d","n":%d}`, c.R.Intn(1000000), c.R.Intn(10)), []int{1, 1, 0, 2, 3}[c.R.Intn(5)])
+		c14Twice(c, "jwt", 3, c.R.Intn(2), true, nil, tok, c14Junk(c, c.R.Intn(3)))
+		c14Twice(c, "jwt-wrapped", 3, c.R.Intn(2), true, nil, c14Sprinkle(c, tok, 1+c.R.Intn(3)), nil)
+		c14Twice(c, "jwt-wrapped", 3, 0, false, []byte("."), append(wrapText(tok, 64, c.R.Bool()), '\n'), []byte(".e30"))
+		bad := c14cp(tok)
+		bad[c.R.Intn(len(bad))] = c.R.Pick([]byte("*=.\n-+"))
+		c14Twice(c, "jwt-damaged", 3, 0, true, nil, bad, nil)
+	}
+	for _, s := range []string{"", ".", "..", "...", "e30.e30.", "e30.e30.AA", "e30.e30.A", "e30\n.e30.\n", "e30=.e30.AA", "bnVsbA.e30.AA", "e30.e30"} {
+		c14Twice(c, "jwt-small", 3, 0, true, nil, []byte(s), []byte("."))
+	}
+
+	// ---------------- reuse ----------------
+	// the sequence of the demonstration: one buffer, texts of one length
+	demo := []string{"QUJDREVG", "R0hJSktM", "QUJDRA==", "!!!!!!!!", "QUJD====", "QUJDR-_+", "QUJDREVG", "QUJD\nRUY", "QUJDREVG"}
+	for _, pr := range [][2]string{{"QUJD", "REVG"}, {"QUJD", "!!!!"}, {"QQ==", "Qg=="}, {"QUJD", "QQ=="}, {"QQ==", "Q==="}, {"-_-_", "+/+/"}, {"QUJD", "QU\nJ"}} {
+		c14Reuse(c, "corpus", 1, 1, false, make([]byte, 4), []c14Step{{0, []byte(pr[0])}, {0, []byte(pr[1])}})
+	}
+	for fn := 0; fn <= 1; fn++ {
+		var st []c14Step
+		for _, s := range demo {
+			st = append(st, c14Step{0, []byte(s)})
+		}
+		c14Reuse(c, "corpus", fn, 1, false, make([]byte, 8), st)
+		c14Reuse(c, "corpus", fn, 0, true, []byte("xxxxxxxxxxxxxx"), st)
+	}
+	// every transition between kinds of text, same place, same length:
+	// t1(k1) -> t2(k2) -> other text of k1 -> t2 again -> t1 again
+	for _, L := range []int{8, 12, 16} {
+		for k1 := 0; k1 < c14Kinds; k1++ {
+			for k2 := 0; k2 < c14Kinds; k2++ {
+				for fn := 0; fn <= 1; fn++ {
+					off := c.R.Intn(5)
+					t1, t2, t3 := c14Text(c, k1, L), c14Text(c, k2, L), c14Text(c, k1, L)
+					st := []c14Step{{off, t1}, {off, t2}, {off, t3}, {off, t2}, {off, t1}}
+					c14Reuse(c, c14KindName[k1]+">"+c14KindName[k2], fn, c14ReuseMode(c), c.R.Bool(), c14Junk(c, off+L+c.R.Intn(6)), st)
+				}
+			}
+		}
+	}
+	// walks: refill with equal length, with a prefix of the previous text (same start, shorter),
+	// at another offset of the same array (windows overlapping the previous one or not), the same
+	// text at two places, the whole array
+	nWalk := 300
+	if c.Thorough() {
+		nWalk = 10000
+	}
+	for i := 0; i < nWalk; i++ {
+		fn := []int{1, 1, 0, 2, 4}[c.R.Intn(5)]
+		L := []int{8, 12, 16, 24}[c.R.Intn(4)]
+		size := 2*L + c.R.Intn(9)
+		text := func() []byte {
+			if fn >= 2 && c.R.Intn(3) > 0 {
+				return c14DERText(c, L)
+			}
+			return c14Text(c, c.R.Intn(c14Kinds), L)
+		}
+		off := c.R.Intn(size - L + 1)
+		prev := text()
+		st := []c14Step{{off, prev}}
+		for n := 3 + c.R.Intn(7); n > 0; n-- {
+			switch c.R.Intn(6) {
+			case 0: // prefix of the previous text
+				prev = prev[:len(prev)-c.R.Intn(len(prev)/2+1)]
+			case 1: // the same text somewhere else in the array
+				off = c.R.Intn(size - len(prev) + 1)
+			case 2: // other text somewhere else
+				prev = text()
+				off = c.R.Intn(size - L + 1)
+			case 3: // the whole array
+				prev, off = c14Text(c, c.R.Intn(c14Kinds), 4*(size/4)), 0
+			default: // other text of the same length in the same place
+				if len(prev) >= 8 && len(prev)%4 == 0 {
+					L2 := len(prev)
+					if fn >= 2 && c.R.Bool() {
+						prev = c14DERText(c, L2)
+					} else {
+						prev = c14Text(c, c.R.Intn(c14Kinds), L2)
+					}
+				} else {
+					prev = c14Junk(c, len(prev))
+				}
+			}
+			st = append(st, c14Step{off, c14cp(prev)})
+		}
+		c14Reuse(c, "walk", fn, c14ReuseMode(c), c.R.Bool(), c14Junk(c, size), st)
+	}
+	// JWTs of one length in one buffer
+	nJ := 20
+	if c.Thorough() {
+		nJ = 500
+	}
+	for i := 0; i < nJ; i++ {
+		e := []int{1, 0, 2, 3}[c.R.Intn(4)]
+		var st []c14Step
+		for n := 4 + c.R.Intn(4); n > 0; n-- {
+			tok := c14JWT(c, c14Hdrs[c.R.Intn(len(c14Hdrs))], fmt.Sprintf(`{"sub":"%06d","n":%d}`, c.R.Intn(1000000), c.R.Intn(10)), e)
+			if c.R.Intn(4) == 0 {
+				tok[c.R.Intn(len(tok))] = c.R.Pick([]byte("*=.\n-+"))
+			}
+			st = append(st, c14Step{1, tok})
+		}
+		c14Reuse(c, "jwt", 3, c14ReuseMode(c), true, c14Junk(c, len(st[0].text)+3), st)
+	}
+
+	// ---------------- conc ----------------
+	nConc := 40
+	if c.Thorough() {
+		nConc = 400
+	}
+	for i := 0; i < nConc; i++ {
+		fn := []int{1, 1, 0, 2}[c.R.Intn(4)]
+		var pairs [][2][]byte
+		for g := 4 + c.R.Intn(5); g > 0; g-- {
+			L := []int{8, 12, 16, 64}[c.R.Intn(4)]
+			a, b := c14Text(c, c.R.Intn(c14Kinds), L), c14Text(c, c.R.Intn(c14Kinds), L)
+			if fn == 2 {
+				a = c14DERText(c, L)
+			}
+			pairs = append(pairs, [2][]byte{a, b})
+		}
+		c14Conc(c, "own-buffers", fn, i%2, pairs)
 	}
 }
